@@ -53,12 +53,13 @@ Holds(e) ==
     [] e.op = "FIsZero"    -> Abs!FIsZero(e.a, e.ret)
     [] e.op = "FEquals"    -> Abs!FEquals(e.a, e.b, e.ret)
     [] e.op = "FSetInt"    -> BytesOk(e.v) /\ F'[e.d] = OS2IPW(e.v) /\ Abs!FFrame(e.d)      \* setup (Montgomery limbs written directly)
+    [] e.op = "MPoly"      -> Abs!MPoly(e.d, e.a)
     [] e.op = "MSswu"      -> BytesOk(e.x) /\ BytesOk(e.y) /\ Abs!MSswu(e.a, PtOf(e.x, e.y))
     [] e.op = "MIso"       -> BytesOk(e.x) /\ BytesOk(e.y) /\ Abs!MIso(PtOf(e.x, e.y), ReadResult(e.res).p)
     [] e.op = "NWide"      -> Abs!NWide(e.data, e.ret)
 
 Dest(e) == IF e.op \in {"FNew", "FOne", "FSet", "FAdd", "FSub", "FMul", "FSqr", "FNeg", "FInvert", "FSqrtRatio", "FCMove",
-                        "FFromBytes", "FWide", "FSetInt"} THEN {e.d} ELSE {}
+                        "FFromBytes", "FWide", "FSetInt", "MPoly"} THEN {e.d} ELSE {}
 
 TraceInit == /\ Trace[1].op = "Header" /\ F = Conc([v \in 1..NFv |-> PZero])
              /\ l = 2 /\ mode = "run" /\ nbad = 0 /\ nmach = 0
